@@ -21,8 +21,9 @@ type varInfo struct {
 }
 
 type refInfo struct {
-	idx int64
-	opt bool // declared optional reference
+	idx  int64
+	opt  bool // declared optional reference
+	conc bool // static type &C.R / &C.R? (otherwise &{C.I} / &{C.I}?, or a borrow's type)
 }
 
 // a non-resource value holding a copy of a reference: struct field, optional struct, array
@@ -640,6 +641,14 @@ func (g *Gen) build(kind string) *Stmt {
 		if s.opt {
 			src = fmt.Sprintf("let %s = C.idr(&%s as &{C.I}?)", rname(r.idx), vname(s.idx))
 		}
+		if x := g.st.Var(s.idx); !s.opt && x != nil && x.Ev && g.want == ENone && rng.Chance(1, 3) {
+			// concretely typed reference (see refCast)
+			tmp := g.fresh()
+			r.conc = true
+			return &Stmt{Kind: kind + "+cast",
+				Src:  fmt.Sprintf("let %s = C.idn(&%s as &{C.I}) as! &C.R", rname(r.idx), vname(s.idx)),
+				Cmds: []Cmd{{Op: CRefVar, R: tmp, X: s.idx}, {Op: CRefCast, R: r.idx, R0: tmp, Ty: TR, Forced: true}}}
+		}
 		return &Stmt{Kind: kind, Src: src, Cmds: []Cmd{{Op: CRefVar, R: r.idx, X: s.idx}}}
 	case "refStep":
 		b := g.pickBase()
@@ -684,6 +693,12 @@ func (g *Gen) build(kind string) *Stmt {
 		default:
 			src = fmt.Sprintf("let %s = C.idn(&%s%s as &{C.I})", rname(r.idx), b.expr, acc)
 		}
+		if x := b.res; g.want == ENone && slot.Kind == SlArr && x != nil && x.peek(slot) != nil && x.peek(slot).Ev && rng.Chance(1, 2) {
+			tmp := g.fresh()
+			r.conc = true
+			return &Stmt{Kind: kind + "+cast", Src: src + " as! &C.R",
+				Cmds: []Cmd{{Op: CRefStep, R: tmp, B: b.b, Sl: slot}, {Op: CRefCast, R: r.idx, R0: tmp, Ty: TR, Forced: true}}}
+		}
 		return &Stmt{Kind: kind, Src: src, Cmds: []Cmd{{Op: CRefStep, R: r.idx, B: b.b, Sl: slot}}}
 	case "refUnwrap":
 		s := g.pickRef(func(r *refInfo) bool {
@@ -702,13 +717,13 @@ func (g *Gen) build(kind string) *Stmt {
 		if s == nil {
 			return nil
 		}
-		r := &refInfo{idx: g.fresh()}
+		r := &refInfo{idx: g.fresh(), conc: s.conc}
 		g.refs = append(g.refs, r)
 		return &Stmt{Kind: kind, Src: fmt.Sprintf("let %s = %s!", rname(r.idx), rname(s.idx)),
 			Cmds: []Cmd{{Op: CRefUnwrap, R: r.idx, R0: s.idx}}}
 	case "refCast":
 		s := g.pickRef(func(r *refInfo) bool {
-			if r.opt {
+			if r.opt || r.conc {
 				return false
 			}
 			v, _ := g.st.Ref(r.idx)
@@ -733,6 +748,15 @@ func (g *Gen) build(kind string) *Stmt {
 		src := fmt.Sprintf("let %s: &{C.I} = %s as! &%s", rname(r.idx), rname(s.idx), tn)
 		if !forced {
 			src = fmt.Sprintf("let %s: &{C.I}? = %s as? &%s", rname(r.idx), rname(s.idx), tn)
+		}
+		if t == TR && rng.Chance(3, 4) {
+			// keep the concrete static type: such references can be stored in concretely typed
+			// holders, where no conversion re-wraps the reference value on the way
+			r.conc = true
+			src = fmt.Sprintf("let %s = %s as! &C.R", rname(r.idx), rname(s.idx))
+			if !forced {
+				src = fmt.Sprintf("let %s = %s as? &C.R", rname(r.idx), rname(s.idx))
+			}
 		}
 		return &Stmt{Kind: kind, Src: src, Cmds: []Cmd{{Op: CRefCast, R: r.idx, R0: s.idx, Ty: t, Forced: forced}}}
 	case "borrow":
@@ -795,28 +819,44 @@ func (g *Gen) build(kind string) *Stmt {
 		if s == nil {
 			return nil
 		}
-		r := &refInfo{idx: g.fresh(), opt: s.opt}
+		r := &refInfo{idx: g.fresh(), opt: s.opt, conc: s.conc}
 		g.refs = append(g.refs, r)
 		src := fmt.Sprintf("let %s = %s", rname(r.idx), rname(s.idx))
-		if !s.opt && rng.Bool() {
+		if !s.opt && !s.conc && rng.Bool() {
 			src = fmt.Sprintf("let %s = C.idn(%s)", rname(r.idx), rname(s.idx))
 		}
 		return &Stmt{Kind: kind, Src: src, Cmds: []Cmd{{Op: CRefCopy, R: r.idx, R0: s.idx}}}
 	case "holderMake":
-		s := g.pickRef(func(r *refInfo) bool {
+		okRef := func(r *refInfo) bool {
 			v, _ := g.st.Ref(r.idx)
 			if g.want == EInvalidRef {
 				return !r.opt && v.Kind == RDead
 			}
 			return !r.opt && v.Kind == REph
-		})
+		}
+		// prefer concretely typed references (their holders are concretely typed too)
+		s := g.pickRef(func(r *refInfo) bool { return r.conc && okRef(r) })
+		if s == nil || rng.Chance(1, 4) {
+			s = g.pickRef(okRef)
+		}
 		if s == nil {
 			return nil
 		}
 		h := &holderInfo{idx: g.fresh(), kind: []string{"struct", "optstruct", "array", "dict"}[rng.Intn(4)]}
 		g.hold = append(g.hold, h)
 		var src string
+		if s.conc && rng.Chance(4, 5) {
+			h.kind += "R"
+		}
 		switch h.kind {
+		case "structR":
+			src = fmt.Sprintf("let %s = C.HolderR(%s)", hname(h.idx), rname(s.idx))
+		case "optstructR":
+			src = fmt.Sprintf("let %s: C.HolderR? = C.HolderR(%s)", hname(h.idx), rname(s.idx))
+		case "arrayR":
+			src = fmt.Sprintf("let %s: [&C.R] = [%s]", hname(h.idx), rname(s.idx))
+		case "dictR":
+			src = fmt.Sprintf("let %s: {String: &C.R} = {\"a\": %s}", hname(h.idx), rname(s.idx))
 		case "struct":
 			src = fmt.Sprintf("let %s = C.Holder(%s)", hname(h.idx), rname(s.idx))
 		case "optstruct":
@@ -854,6 +894,9 @@ func (g *Gen) build(kind string) *Stmt {
 			return nil
 		}
 		h := c[rng.Intn(len(c))]
+		if !strings.HasSuffix(h.kind, "R") {
+			h = c[rng.Intn(len(c))] // second draw: prefer concretely typed holders
+		}
 		dead := g.want == EInvalidRef
 		r := &refInfo{idx: g.fresh()}
 		g.refs = append(g.refs, r)
@@ -861,7 +904,39 @@ func (g *Gen) build(kind string) *Stmt {
 		var src string
 		// forms that read through a reference to the holder (a new reference value is derived);
 		// the direct forms only while the stored reference is usable
+		r.conc = strings.HasSuffix(h.kind, "R")
 		switch h.kind {
+		case "structR":
+			switch n := rng.Intn(4); {
+			case n == 0:
+				src = fmt.Sprintf("let %s = (&%s as &C.HolderR).ref", rn, hn)
+			case n == 1:
+				src = fmt.Sprintf("let %s = (&%s as &C.HolderR).opt", rn, hn)
+				r.opt = true
+			case n == 2 || dead:
+				src = fmt.Sprintf("let %s = C.viaHolderR(&%s as &C.HolderR)", rn, hn)
+			default:
+				src = fmt.Sprintf("let %s = %s.ref", rn, hn)
+			}
+		case "optstructR":
+			src = fmt.Sprintf("let %s = (&%s as &C.HolderR?)?.ref", rn, hn)
+			r.opt = true
+		case "arrayR":
+			switch n := rng.Intn(3); {
+			case n == 0:
+				src = fmt.Sprintf("let %s = (&%s as &[&C.R])[0]", rn, hn)
+			case n == 1 || dead:
+				src = fmt.Sprintf("let %s = C.viaArrayR(&%s as &[&C.R], 0)", rn, hn)
+			default:
+				src = fmt.Sprintf("let %s = %s[0]", rn, hn)
+			}
+		case "dictR":
+			if rng.Bool() {
+				src = fmt.Sprintf("let %s = (&%s as &{String: &C.R})[\"a\"]", rn, hn)
+			} else {
+				src = fmt.Sprintf("let %s = C.viaDictR(&%s as &{String: &C.R}, \"a\")", rn, hn)
+			}
+			r.opt = true
 		case "struct":
 			switch n := rng.Intn(4); {
 			case n == 0:
@@ -939,9 +1014,9 @@ func (g *Gen) choices() []choice {
 		{"arrRemove", w.Unnest * 2}, {"dictRemove", w.Unnest}, {"takeOpt", w.Unnest},
 		{"destroy", w.Destroy * 2},
 		{"save", w.Storage * 2}, {"load", w.Storage},
-		{"refVar", w.Ref * 2}, {"refStep", w.Ref * 3}, {"refUnwrap", w.Ref * 2}, {"refCast", w.Ref}, {"borrow", w.Ref},
+		{"refVar", w.Ref * 2}, {"refStep", w.Ref * 3}, {"refUnwrap", w.Ref * 2}, {"refCast", w.Ref * 3}, {"borrow", w.Ref},
 		{"use", w.Use * 5}, {"showVar", w.Use},
-		{"refCopy", w.Ref}, {"holderMake", w.Ref * 3}, {"holderCopy", w.Ref}, {"holderRead", w.Ref * 6},
+		{"refCopy", w.Ref}, {"holderMake", w.Ref * 4}, {"holderCopy", w.Ref}, {"holderRead", w.Ref * 8},
 		{"setTag", w.Mut * 3},
 		{"swapIdxArr", w.SwapIdx}, {"swapIdxDict", w.SwapIdx},
 	}
